@@ -371,6 +371,7 @@ Plan nav_generate(uint64_t base, const std::string &prop, uint64_t index, int ti
     k.p_empty = 10 + (int)rd.below(40);
     k.max_obj_depth = 1 + (int)rd.below(6);
     k.max_arr_depth = 1 + (int)rd.below(5);
+    if (prop == "C07" || rd.chance(1, 5)) k.max_kids = 3 + (int)rd.below(10);
     Node root;
     if (rd.chance(3, 100)) {
         root.t = p.root ? V_ARR : V_OBJ;
@@ -403,7 +404,16 @@ Plan nav_generate(uint64_t base, const std::string &prop, uint64_t index, int ti
         int total = 0;
         Op probe;
         int wts[9];
-        for (int c = 0; c < 9; c++) { probe.code = cands[c].code; wts[c] = g.cur.enabled(probe) ? cands[c].w : 0; total += wts[c]; }
+        bool at_end = g.cur.entered && !g.cur.st.empty() && !g.cur.st.back().pending && g.cur.st.back().next >= g.cur.st.back().c->kids.size();
+        for (int c = 0; c < 9; c++) {
+            probe.code = cands[c].code; wts[c] = g.cur.enabled(probe) ? cands[c].w : 0;
+            if (at_end) {   // most of a history should be spent where something can still happen
+                if (probe.code == M_FIELD || probe.code == M_FIELD_ENS) wts[c] = (wts[c] + 9) / 10;
+                else if (probe.code == M_NEXT) wts[c] = (wts[c] + 3) / 4;
+                else if (probe.code == M_LEAVE) wts[c] *= 4;
+            }
+            total += wts[c];
+        }
         if (total == 0) break;
         int pick = (int)ro.below((uint64_t)total), c = 0;
         while (pick >= wts[c]) { pick -= wts[c]; c++; }
